@@ -292,15 +292,36 @@ func propC20(c *Ctx) {
 					}
 					return ""
 				}
-				first, second := "", ""
-				for _, ci := range callsNamed(fn, "builtin append") {
-					call := ci.(*ssa.Call)
-					if len(call.Call.Args) != 2 {
-						continue
+				// the order of the concatenation handed to compact: append(append(nil, file…), db…), append(file, db…)
+				var order func(v ssa.Value, d int) []string
+				order = func(v ssa.Value, d int) []string {
+					v = stripConv(v)
+					if o := origin(v); o != "" {
+						return []string{o}
 					}
-					a, b := origin(call.Call.Args[0]), origin(call.Call.Args[1])
-					if a != "" && b != "" {
-						first, second = a, b
+					if isNilConst(v) {
+						return nil
+					}
+					if mk, isMk := v.(*ssa.MakeSlice); isMk {
+						if n, isC := constInt(mk.Len); isC && n == 0 {
+							return nil
+						}
+					}
+					if call, isCall := v.(*ssa.Call); isCall && d < 6 {
+						if bi, isB := call.Call.Value.(*ssa.Builtin); isB && bi.Name() == "append" && len(call.Call.Args) == 2 {
+							o := origin(call.Call.Args[1])
+							if o == "" {
+								o = "?"
+							}
+							return append(order(call.Call.Args[0], d+1), o)
+						}
+					}
+					return []string{"?"}
+				}
+				first, second := "", ""
+				if len(compact.Call.Args) > 0 {
+					if o := order(compact.Call.Args[0], 0); len(o) == 2 && o[0] != "?" && o[1] != "?" {
+						first, second = o[0], o[1]
 					}
 				}
 				stable := sortCall != nil && strings.HasPrefix(calleeName(sortCall), "slices.SortStableFunc")
